@@ -28,7 +28,7 @@ TIERS = {
                  dict(NumDCs=1, MaxIdx=4, MaxLen=4, WithWait=True)],
 }
 SIM = {"quick": dict(NumDCs=3, MaxIdx=4, MaxLen=6, WithWait=False, num=1500),
-       "thorough": dict(NumDCs=4, MaxIdx=4, MaxLen=8, WithWait=False, num=10000)}
+       "thorough": dict(NumDCs=4, MaxIdx=4, MaxLen=8, WithWait=False, num=2500)}
 
 
 def run(ctx):
